@@ -205,6 +205,22 @@ CHECKS['C16'] = dict(
     design='§5 C16',
     note=COMMON_NOTE + 'is_mutable() is modelled as "always true once a database name is given" (as coded); the router is consulted by Django, which is trusted.')
 
+CHECKS['C10'] = dict(
+    technique='Lean 4 proof (set algebra of the migration hand-over for every chain, prefix and prior state) + exhaustive small-parameter oracle',
+    text=('Model of which migrations of a linear chain a hand-over run records without executing (mark_applied minus '
+          'already applied) and which it executes (the rest, in chain order). Proved for every chain length, prefix and '
+          'prior recorder state: every migration is accounted for exactly once (C10_partition), marked and already '
+          'recorded migrations are never executed, nothing is recorded twice, execution follows chain order, afterwards '
+          'the whole chain is recorded and a further run marks and executes nothing (C10_second_run_noop). On the real '
+          'code: apps with k evolutions then MoveToDjangoMigrations(mark_applied=prefix S) and an in-memory chain of m '
+          'migrations, every S, start states fresh / each earlier evolution / already migrated, alone and next to an '
+          'evolution-only app (all 54 parameter combinations in the thorough tier): signal order, recorder rows, stored '
+          'applied_migrations and upgrade method, final columns, and a second run that must be a no-op. Findings F44 '
+          '(initial migration recorded twice on a fresh database) and F45 (mark_applied covering the whole chain '
+          'crashes) were found this way.'),
+    design='§5 C10',
+    note=COMMON_NOTE + 'Django\'s MigrationLoader/executor and migration_plan for chains are assumed primitives (observed). Evolutions are discovered as modules; migrations are handed to EvolveAppTask(migrations=...) because they exist in memory only.')
+
 NOT_YET = {}
 
 
